@@ -26,6 +26,7 @@ type vfReco struct {
 	BWrites bool
 	Seq     bool // streams are written and closed one after the other while everything is still queued
 	Big     bool // messages large enough to stay queued behind cwnd when the stream is closed
+	PR      bool // the streams are partially reliable (no retransmission): a lost tail is abandoned, not re-sent
 	Base    [2]uint32
 }
 
@@ -116,7 +117,9 @@ func vfRunReco(t *testing.T, tr *vfTrace, x vfReco) bool {
 			for sid := 1; sid <= x.NStr; sid++ {
 				delete(w.seqBase, [2]int{0, sid})
 				w.open(0, sid, 51)
-				if x.Unord && sid%2 == 0 {
+				if x.PR {
+					w.setRel(0, sid, x.Unord && sid%2 == 0, ReliabilityTypeRexmit, 0)
+				} else if x.Unord && sid%2 == 0 {
 					w.setRel(0, sid, true, ReliabilityTypeReliable, 0)
 				}
 				w.installCallback(0, sid, 0)
@@ -213,6 +216,25 @@ func init() {
 		}
 		r := rand.New(rand.NewSource(seed))
 		k := 0
+		// partially reliable streams closed while part of their data is lost for good: the reset request names a last
+		// TSN that only a FORWARD-TSN will ever cover
+		for _, nstr := range []int{1, 2} {
+			for _, nmsg := range []int{2, 3} {
+				for n := 1; n <= nstr*nmsg; n++ {
+					for _, il := range []bool{false, true} {
+						k++
+						if k%nshards != shard {
+							continue
+						}
+						x := vfReco{Label: fmt.Sprintf("reconfig-pr-s%d-m%d-d%d-il%v#%d", nstr, nmsg, n, il, k), NStr: nstr, NMsg: nmsg, Faults: []vfFault{{"data", 0, n, false}},
+							Cycles: 2, IL: il, Unord: k%3 == 0, PR: true, Base: [2]uint32{uint32(k * 104729), uint32(0) - uint32(k%7)}}
+						if vfRunReco(t, tr, x) {
+							t.Fatalf("scenario %s hung", x.Label)
+						}
+					}
+				}
+			}
+		}
 		for _, nstr := range []int{1, 2, 3} {
 			for _, nmsg := range []int{0, 1, 3} {
 				for si, fs := range sets {
@@ -227,7 +249,7 @@ func init() {
 						continue
 					}
 					x := vfReco{Label: fmt.Sprintf("reconfig-s%d-m%d-f%d#%d", nstr, nmsg, si, k), NStr: nstr, NMsg: nmsg, Faults: fs, Cycles: 2,
-						IL: k%2 == 0, Unord: k%3 == 0, BWrites: k%4 == 0, Big: k%5 == 0, Seq: k%3 == 1 && nstr > 1, Base: [2]uint32{uint32(k * 104729), uint32(0) - uint32(k%7)}}
+						IL: k%2 == 0, Unord: k%3 == 0, BWrites: k%4 == 0, Big: k%5 == 0, PR: k%5 != 0 && k%7 == 3, Seq: k%3 == 1 && nstr > 1, Base: [2]uint32{uint32(k * 104729), uint32(0) - uint32(k%7)}}
 					if vfRunReco(t, tr, x) {
 						t.Fatalf("scenario %s hung", x.Label)
 					}
